@@ -7,3 +7,6 @@ open JetVerif.Props.C17
 #print axioms zero_values_are_set
 #print axioms nil_values_are_not_set
 #print axioms piped_isset_judges_value
+#print axioms isSetFieldPath_true_iff
+#print axioms pathResolves_prefix
+#print axioms isset_field_exact
